@@ -543,6 +543,70 @@ func (c *Ctx) resultFacts(call *ssa.Call, i int, o lin.Form) {
 	}
 }
 
+// resultIntLenFacts: the integer result of a static in-module call is at most
+// the length of one of its sequence arguments (an index / a count into it).
+func (c *Ctx) resultIntLenFacts(call *ssa.Call, i int, o lin.Form) {
+	cc := call.Common()
+	if cc.IsInvoke() {
+		return
+	}
+	fn := cc.StaticCallee()
+	if fn == nil || !c.FI.W.P.InModule(fn) || fn == c.FI.Fn || len(cc.Args) != len(fn.Params) {
+		return
+	}
+	if _, _, ok := isIntType(o2t(call, i)); !ok {
+		return
+	}
+	for _, j := range c.FI.W.resultIntLen(fn, i) {
+		c.add(lin.LE(o, c.LenOf(cc.Args[j])))
+	}
+}
+
+// resultIntLen: the sequence parameters j of fn with result_i <= len(param_j)
+// at every return (cached; nothing while in progress).
+func (w *World) resultIntLen(fn *ssa.Function, i int) []int {
+	if w.intLenC == nil {
+		w.intLenC = map[string][]int{}
+	}
+	key := fn.String() + "#" + string(rune('0'+i))
+	if r, ok := w.intLenC[key]; ok {
+		return r
+	}
+	w.intLenC[key] = nil
+	if fn.Blocks == nil {
+		return nil
+	}
+	fi := w.Info(fn)
+	var rets []*ssa.Return
+	for _, b := range fn.Blocks {
+		if ret, ok := b.Instrs[len(b.Instrs)-1].(*ssa.Return); ok && i < len(ret.Results) {
+			rets = append(rets, ret)
+		}
+	}
+	if len(rets) == 0 {
+		return nil
+	}
+	var out []int
+	for j, p := range fn.Params {
+		if !isSeq(p.Type()) {
+			continue
+		}
+		all := true
+		for _, ret := range rets {
+			c := fi.ctxBefore(ret)
+			if !c.Prove(lin.LE(c.Lin(ret.Results[i]), c.LenOf(p))) {
+				all = false
+				break
+			}
+		}
+		if all {
+			out = append(out, j)
+		}
+	}
+	w.intLenC[key] = out
+	return out
+}
+
 // resultUpper: the least of a few round constants K such that in-module
 // function fn returns a value <= K in result i at every return (cached;
 // pessimistic for recursion).
